@@ -78,6 +78,28 @@ def write_read(recs, blocked, api, fobj='bytesio'):
         finally:
             done()
         return data, back
+    if fobj == 'bytesio' and api.startswith('style:'):
+        # how a copy loop really writes: ONE mutable buffer refilled for every record (what was passed must not be
+        # kept by reference), flush() between the writes (flushing is not finalising)
+        style = api.split(':')[1]
+        f = io.BytesIO()
+        buf = bytearray(max([len(r) for r in recs] + [1]))
+        w = mciipm.VbsWriter(f, blocked=blocked)
+        for i, r in enumerate(recs):
+            if 'reuse' in style:
+                buf[:len(r)] = r
+                w.write(memoryview(buf)[:len(r)] if i % 2 else bytearray(buf[:len(r)]) if i % 3 == 0 else
+                        memoryview(buf)[:len(r)])
+                for j in range(len(buf)):
+                    buf[j] = 0x5a
+            else:
+                w.write(r)
+            if 'flush' in style:
+                w.flush()
+        w.close()
+        data = f.getvalue()
+        back = list(mciipm.VbsReader(io.BytesIO(data), blocked=blocked))
+        return data, back
     if api == 'func':
         data = mciipm.vbs_list_to_bytes(recs, blocked=blocked)
         back = mciipm.vbs_bytes_to_list(data, blocked=blocked)
@@ -187,6 +209,12 @@ def tasks(tier, seed):
             uni.append({'lens': lens, 'coding': coding})
     for ch in core.chunks(uni, 32):
         ts.append({'kind': 'uniform', 'items': ch, 'seed': seed})
+    # (e2) writing styles: a reused mutable buffer, flush() between writes
+    sq = [1, 3, 4, 5, 1004, 1008, 1012, 1016, 2020]
+    sl = [[a] for a in sq] + [[a, b] for a in sq for b in sq] + [[a, b, c] for a in (3, 1008, 1012) for b in (4, 1004, 2020)
+                                                                 for c in (1, 1012)] + [[7] * 400]
+    for ch in core.spread(sl, 8):
+        ts.append({'kind': 'styles', 'lists': ch, 'seed': seed})
     # (f) other kinds of file object; files beyond 1 MiB (nothing in the statement bounds the size)
     q = [1, 4, 1004, 1008, 1012, 2020, 6000]
     fl = [[a] for a in q] + [[a, b] for a in q for b in q] + [[250] * 100]
@@ -229,6 +257,14 @@ def run_task(task):
                 for api in APIS:
                     case = {'lens': it['lens'], 'coding': it['coding'], 'blocked': blocked, 'api': api, 'seed': seed}
                     if i == 0 and blocked and api == 'func':
+                        acc.sample(case)
+                    check_case(case, acc)
+    elif task['kind'] == 'styles':
+        for i, lens in enumerate(task['lists']):
+            for blocked in (False, True):
+                for style in ('flush', 'reuse', 'reuse+flush'):
+                    case = {'lens': lens, 'coding': 'pos', 'blocked': blocked, 'api': 'style:' + style, 'seed': seed}
+                    if i == 0 and blocked and style == 'reuse':
                         acc.sample(case)
                     check_case(case, acc)
     elif task['kind'] == 'fileobjs':
